@@ -126,3 +126,21 @@ PROPS["C15"] = {
         "(overlapping hits are allowed: the matcher's iteration order is not documented)",
     ],
 }
+
+PROPS["C11"] = {
+    "level": "exploration",
+    "runs": [run("TestC11", (15000, 6), (400000, 16)), run("TestC11E2E", (1500, 2), (40000, 16))],
+    "rule": "cases = (pattern, 3..8 inputs): patterns are generated from a grammar (ASCII / non-ASCII / \\x{..} literals, classes, "
+            "alternations with shared prefixes, optional and repeated groups, captures, ^ $ \\A \\z \\b, global and scoped (?i)) or drawn "
+            "from the @rx patterns of the bundled OWASP CRS (compiled rules read reflectively); inputs are sampled by walking the pattern's "
+            "regexp/syntax tree (intended matches, other members of the case-fold orbit) and perturbed (byte deletion / substitution, case "
+            "flip, long-s / Kelvin sign, newline insertion, prefix / suffix, upper-casing, random bytes); oracle = the real @rx operator built "
+            "with the prefilter on vs off: same result and, with capture, same TX.0-9; a second run compares two WAFs differing only in "
+            "SecRxPreFilter end to end; non-trivial = the prefilter-on operator carries a literal prefilter, minimum length or exact-match "
+            "shortcut and the inputs produce both outcomes; distinct = distinct case encodings",
+    "essential": {"all": ["pf:literal-prefilter", "pf:min-length", "pf:exact-match", "source:crs", "source:generated", "begin-anchor", "end-anchor",
+                          "case-insensitive", "both-outcomes", "e2e-two-wafs"]},
+    "assumptions": COMMON_ASSUME + [
+        "the prefilter-off operator (plain regexp) is the reference; patterns rejected by Go's regexp parser must be rejected identically by both",
+    ],
+}
